@@ -60,7 +60,7 @@ CATALOGUE = {
   (S, None, 'core/_files.py', "pncbo(op=' == ', ifile1", "pncbo(op='==', ifile1"),
  ],
  'C07': [
-  (F, 'R-FILLSRC', 'pncgen.py', "getattr(nvar, 'fill_value', getattr(\n                nvar, '_FillValue'", "getattr(pvar, 'fill_value', getattr(\n                nvar, '_FillValue'"),
+  (F, 'R-FILLSRC', 'pncgen.py', "                    nvar, 'fill_value', getattr(\n                        nvar, '_FillValue',", "                    pvar, 'fill_value', getattr(\n                        nvar, '_FillValue',"),
   (F, 'R-KWCOPY', 'pncgen.py', "create_variable_kwds = self.create_variable_kwds.copy()", "create_variable_kwds = self.create_variable_kwds"),
   (F, 'R-UNLIM', 'pncgen.py', "                nd = nfile.createDimension(d, None)", "                nd = nfile.createDimension(d, v)"),
   (F, 'R-FILLSET', 'pncgen.py', "        elif hasattr(pvar, '_FillValue'):\n            create_variable_kwds['fill_value'] = pvar._FillValue\n", ""),
@@ -504,6 +504,10 @@ CATALOGUE['C13'] += [
 CATALOGUE['C08'] += [
   (F, 'R-BYTEORDER', 'camxfiles/wind/Write.py', "        lstag = np.array(ncffile.LSTAGGER, ndmin=1).astype('>i')\n", "        lstag = ncffile.LSTAGGER\n"),
   (S, None, 'camxfiles/wind/Write.py', "        lstag = np.array(ncffile.LSTAGGER, ndmin=1).astype('>i')\n", "        lstagval = ncffile.LSTAGGER\n        lstag = np.array([lstagval], dtype='>i')\n"),
+]
+
+CATALOGUE['C03'] += [
+  (F, 'R-PASSMASK', 'pncgen.py', "            if isinstance(nvar, MaskedArray):\n                # an in-memory masked variable keeps the mask itself\n                nvar[:] = pvar[...]\n            else:\n                nvar[:] = pvar[...].filled(getattr(\n                    nvar, 'fill_value', getattr(\n                        nvar, '_FillValue',\n                        getattr(pvar, 'missing_value', -9999))))\n", "            nvar[:] = pvar[...].filled(getattr(nvar, 'fill_value', getattr(\n                nvar, '_FillValue', getattr(pvar, 'missing_value', -9999))))\n"),
 ]
 
 def _findings(prop, overlay):
